@@ -135,6 +135,10 @@ def main():
               "4 evaluation paths each; non-trivial = distinct (model, quadruple) with at least one closed path" % (len(ms) - len(ms3), len(ms3)))
     c.trusted = ["TLC", "tools/exact.py: symbolic time-ordered integration of exponentials (about 40 lines) and evaluation (mpmath)"]
     c.assumptions = ["exact family only", "tolerance 1e-8 (1 + sum |path terms|)"]
+    # call histories of the documented workflow (spec/Workflow.tla): repeated prepare()/compute() are no-ops, a call changes the data of
+    # its own object only, and whatever the history, the finished object holds the data of the canonical linear order
+    import workflow
+    workflow.attach(c, {"X"}, "two-particle Green's function")
     c.finish()
 
 
